@@ -2,7 +2,7 @@
    the Models, exhaustive-block evaluation, ghost markers of the repaired panic sites. *)
 From Coq Require Import NArith List Bool.
 From Verif Require Import Base.Check Model.CodecBase Model.CodecPPPoE Model.CodecLcp Model.CodecAuth
-  Model.CodecDhcp6 Model.CodecMisc Model.CodecSpec.
+  Model.CodecDhcp6 Model.CodecMisc Model.CodecGlue Model.CodecSpec.
 Import ListNotations.
 Local Open Scope N_scope.
 
@@ -31,6 +31,7 @@ Definition call (e : N) (p : list N) (d tail : bytes) : res rows :=
   else if e =? 14 then
     (* params [mode; n; zero_used; next; free ids...] *)
     create_seq (N.to_nat (pnth p 1)) (used_of (skipn 2 p)) (count_of (skipn 2 p)) (pnth p 3)
+  else if e =? 15 then recv_frame (pnth p 0) (pnth p 1) d tail
   else if e =? 20 then d6_message d
   else if e =? 21 then d6_options d
   else if (e =? 22) || (e =? 23) then d6_ia d
@@ -38,6 +39,7 @@ Definition call (e : N) (p : list N) (d tail : bytes) : res rows :=
   else if e =? 25 then d6_iaprefix d
   else if e =? 26 then d6_duid d
   else if e =? 27 then d6_handle p d
+  else if e =? 28 then d6_handle_p p d
   else if e =? 30 then parse_option82 d
   else if e =? 31 then parse_vendor d
   else if e =? 32 then sse_count d
